@@ -433,8 +433,10 @@ class ChainExec(F):
         import z3
         term = Base()
         cs = []
-        site = Site(0, (), True, True)
-        for o in self.layers:
+        plain_site = Site(0, (), True, True)
+        for layer in self.layers:
+            # a layer is a def-list, or (def-list, site) when it passes fixed arguments of its own
+            o, site = layer if isinstance(layer, tuple) else (layer, plain_site)
             n, kw, fo = term.z3(env)
             cs.append(accept_z3(o, n, kw, fo))
             term = Fwd(o, site, term)
